@@ -210,6 +210,29 @@ func (c *checker) runPolicyDirected() {
 			b.Count("policy_directed_deep_nestings", 1)
 		}
 	}
+	// wide policies: every threshold within the 255 children the binary codec carries, the text forms tens and hundreds
+	// of kilobytes long
+	for _, w := range [][2]int{{16, 64}, {255, 5}, {32, 255}, {255, 255}} {
+		var groups []types.SpendPolicy
+		for g := 0; g < w[0]; g++ {
+			var of []types.SpendPolicy
+			for k := 0; k < w[1]; k++ {
+				of = append(of, types.PolicyPublicKey(types.PublicKey{byte(g), byte(k), 7}))
+			}
+			groups = append(groups, types.PolicyThreshold(1, of))
+		}
+		q := types.PolicyThreshold(1, groups)
+		var back types.SpendPolicy
+		dec := types.NewBufDecoder(encBin(q))
+		back.DecodeFrom(dec)
+		if dec.Err() != nil {
+			b.Count(fmt.Sprintf("observed:width-%dx%d-not-carried-by-the-binary-codec", w[0], w[1]), 1)
+			continue
+		}
+		c.roundtrip(e, &q, fmt.Sprintf("directed-wide-%dx%d", w[0], w[1]))
+		b.Count("policy_directed_wide_policies", 1)
+		b.MaxOf("policy_directed_longest_text_form_bytes", int64(len(q.String())))
+	}
 	// signature counts
 	for _, sigs := range []uint64{0, 1, 2, 254, 255, 256, 257, 1<<16 - 1, 1 << 16, 1<<32 - 1, 1 << 32, 1<<63 - 1, 1 << 63, math.MaxUint64} {
 		p := uc(0, sigs, key)
